@@ -467,7 +467,24 @@ def enumerated(tier, seed):
               ("print", ("call", V("pi"), [])), ("print", ("call", V("pi"), [])), ("print", ("call", V("pg"), [])), ("print", ("call", V("qg"), [])),
               D("plain", ("fn", [], "int", [("return", I(1))])),
               ("print", ("mcall", V("pg"), "is_closure", [])), ("print", ("mcall", V("plain"), "is_closure", []))]
-    return [{"stmts": late, "labels": ["feat:use-before-local-shadow"], "nt": True},
+    # a function whose PARAMETER is named like the variable it modifies: `modify` addresses the captured variable, reads see the
+    # parameter; the same inside a closure made by a factory whose parameter has that name (there the parameter IS the captured one)
+    pm = [D("x", I(1)),
+          D("g", ("fn", [("x", "int")], "int", [D("x", ("bin", "+", V("x"), I(1)), ("modify",)), ("return", V("x"))])),
+          ("print", ("call", V("g"), [I(7)])), ("print", V("x")), ("print", ("call", V("g"), [I(20)])), ("print", V("x")),
+          D("h", ("fn", [("x", "int")], "int", [D("x", I(50), ("modify",)), ("return", V("x"))])),
+          ("print", ("call", V("h"), [I(3)])), ("print", V("x")),
+          D("st", ("fn", [("x", "int")], None, [D("x", ("bin", "*", V("x"), I(2)), ("modify",))])),
+          ("expr", ("call", V("st"), [I(6)])), ("print", V("x")), ("print", ("mcall", V("g"), "is_closure", []))]
+    pm_factory = [D("y", I(10)),
+                  D("mk", ("fn", [("y", "int")], FI, [("return", ("fn", [], "int", [D("y", ("bin", "+", V("y"), I(1)), ("modify",)), ("return", V("y"))]))])),
+                  D("k", ("call", V("mk"), [I(100)])), ("print", ("call", V("k"), [])), ("print", ("call", V("k"), [])), ("print", V("y")),
+                  D("outer", ("fn", [("y", "int")], "int", [D("inner", ("fn", [], None, [D("y", ("bin", "+", V("y"), I(5)), ("modify",))])),
+                                                            ("expr", ("call", V("inner"), [])), ("expr", ("call", V("inner"), [])), ("return", V("y"))])),
+                  ("print", ("call", V("outer"), [I(1)])), ("print", V("y"))]
+    return [{"stmts": pm, "labels": ["fixed:parameter-named-like-the-modified-variable"], "nt": True},
+            {"stmts": pm_factory, "labels": ["fixed:parameter-of-the-factory-is-the-captured-variable"], "nt": True},
+            {"stmts": late, "labels": ["feat:use-before-local-shadow"], "nt": True},
             {"stmts": late_alive, "labels": ["feat:use-before-local-shadow-owner-alive"], "nt": True},
             {"stmts": shared, "labels": ["fixed:shared-and-fresh-cells"], "nt": True}]
 
